@@ -151,14 +151,14 @@ func (e *Engine) verifyFuncMode(name, kf string) (*VC, error) {
 	perReturn := con.Flags["post-per-return"]
 	if len(con.ExitAsserts) > 0 && !perReturn {
 		fr.perReturn = func(rst *State, rs []*Val, k int, retPos token.Pos) {
-			vc.exitAsserts(fr, con, rst, specVarsFor(fn, params, rs), k, retPos)
+			vc.exitAsserts(fr, con, rst, withGhosts(fr, specVarsFor(fn, params, rs)), k, retPos)
 		}
 	}
 	if perReturn {
 		// postconditions are checked at every return site (simpler queries than
 		// the merged exit state when a function has dozens of returns)
 		fr.perReturn = func(rst *State, rs []*Val, k int, retPos token.Pos) {
-			vars := specVarsFor(fn, params, rs)
+			vars := withGhosts(fr, specVarsFor(fn, params, rs))
 			for i, fv := range fn.FreeVars {
 				vars[fv.Name()] = binds[i]
 			}
@@ -340,4 +340,14 @@ func (vc *VC) exitAsserts(fr *Frame, con *Contract, rst *State, vars map[string]
 		o := vc.oblige(rst, "assert", fmt.Sprintf("exit/%s@ret%d", c.Name, k), g, c.Pos, c.Src)
 		o.Src = fmt.Sprintf("[return at %s] %s", vc.pos(retPos).String(), c.Src)
 	}
+}
+
+// withGhosts adds the ghost variables bound so far (and nothing else) to vars.
+func withGhosts(fr *Frame, vars map[string]*Val) map[string]*Val {
+	for n, v := range fr.specVars {
+		if _, ok := vars[n]; !ok {
+			vars[n] = v
+		}
+	}
+	return vars
 }
